@@ -38,68 +38,102 @@ theorem packH_ok {n : Nat} (h : n < 65536) : packH n = .ok (be16 n) := by simp [
 
 /-! ### varint -/
 
-theorem encodeVarint_eq (n : Nat) :
-    encodeVarint n = if n < 128 then [UInt8.ofNat n]
-      else UInt8.ofNat (n % 128 + 128) :: encodeVarint (n / 128) := by
-  rw [encodeVarint]
-  simp only [varintEncShift, varintEncMask, varintEncCont]
-  by_cases h : n < 128
-  · have h1 : n / 2 ^ 7 = 0 := by omega
-    simp [h, h1, Nat.mod_eq_of_lt h]
-  · have h1 : ¬ (n / 2 ^ 7 = 0) := by omega
-    simp [h, h1]
+theorem encodeVarintAux_zero (n : Nat) : encodeVarintAux 0 n = [UInt8.ofNat (n % 128)] := rfl
 
-theorem readVarintAux_encode (n : Nat) : ∀ (shift acc : Nat) (rest : Bytes),
-    readVarintAux shift acc (encodeVarint n ++ rest) = .ok (acc + n * 2 ^ shift, rest) := by
-  induction n using Nat.strongRecOn with
-  | _ n ih =>
-    intro shift acc rest
-    rw [encodeVarint_eq]
-    split
-    · rename_i h
+theorem encodeVarintAux_succ (fuel n : Nat) :
+    encodeVarintAux (fuel + 1) n =
+      if n / 128 = 0 then [UInt8.ofNat (n % 128)]
+      else UInt8.ofNat (n % 128 + 128) :: encodeVarintAux fuel (n / 128) := rfl
+
+theorem encodeVarint_small {n : Nat} (h : n < 128) : encodeVarint n = [UInt8.ofNat n] := by
+  unfold encodeVarint
+  cases n with
+  | zero => rfl
+  | succ m =>
+    have h1 : (m + 1) / 128 = 0 := by omega
+    rw [encodeVarintAux_succ, if_pos h1, Nat.mod_eq_of_lt h]
+
+theorem readVarintAux_encodeAux : ∀ (fuel n : Nat), n ≤ fuel → ∀ (shift acc : Nat) (rest : Bytes),
+    readVarintAux shift acc (encodeVarintAux fuel n ++ rest) = .ok (acc + n * 2 ^ shift, rest) := by
+  intro fuel
+  induction fuel with
+  | zero =>
+    intro n hn shift acc rest
+    have : n = 0 := by omega
+    subst this
+    have h1 : (UInt8.ofNat (0 % 128)).toNat = 0 := by decide
+    rw [encodeVarintAux_zero]
+    simp [readVarintAux, h1, varintStreamMask, varintStreamCont]
+  | succ fuel ih =>
+    intro n hn shift acc rest
+    rw [encodeVarintAux_succ]
+    by_cases h : n < 128
+    · have h0 : n / 128 = 0 := by omega
       have h1 : (UInt8.ofNat n).toNat = n := u8 (by omega)
       have h2 : n / 128 % 2 = 0 := by omega
-      simp [readVarintAux, varintStreamMask, varintStreamCont, h1, h2, Nat.mod_eq_of_lt h]
-    · rename_i h
-      have h1 : (UInt8.ofNat (n % 128 + 128)).toNat = n % 128 + 128 := u8 (by omega)
+      rw [if_pos h0, Nat.mod_eq_of_lt h]
+      simp only [List.cons_append, List.nil_append, readVarintAux, varintStreamMask, varintStreamCont, h1, h2,
+        if_true, Nat.mod_eq_of_lt h]
+    · have h0 : ¬ (n / 128 = 0) := by omega
+      have h1 : (UInt8.ofNat (n % 128 + 128)).toNat = n % 128 + 128 := by rw [u8 (by omega)]
       have h2 : ¬ ((n % 128 + 128) / 128 % 2 = 0) := by omega
       have h3 : (n % 128 + 128) % 128 = n % 128 := by omega
-      simp only [List.cons_append, readVarintAux, varintStreamMask, varintStreamCont,
-        varintStreamShift, h1, h2, h3, if_false]
+      rw [if_neg h0]
+      simp only [if_false, List.cons_append, readVarintAux, varintStreamMask, varintStreamCont,
+        varintStreamShift, h1, h2, h3]
       rw [ih (n / 128) (by omega)]
       have : n % 128 * 2 ^ shift + n / 128 * 2 ^ (shift + 7) = n * 2 ^ shift := by
-        have hn : n = 128 * (n / 128) + n % 128 := (Nat.div_add_mod n 128).symm
+        have hn' : n = 128 * (n / 128) + n % 128 := (Nat.div_add_mod n 128).symm
         generalize n / 128 = q at *
         generalize n % 128 = r at *
-        subst hn
+        subst hn'
         ring
       rw [Nat.add_assoc, this]
 
-theorem decodeVarintAux_encode (n : Nat) : ∀ (shift acc : Nat) (rest : Bytes),
-    decodeVarintAux shift acc (encodeVarint n ++ rest) = (acc + n * 2 ^ shift, rest) := by
-  induction n using Nat.strongRecOn with
-  | _ n ih =>
-    intro shift acc rest
-    rw [encodeVarint_eq]
-    split
-    · rename_i h
+theorem readVarintAux_encode (n : Nat) (shift acc : Nat) (rest : Bytes) :
+    readVarintAux shift acc (encodeVarint n ++ rest) = .ok (acc + n * 2 ^ shift, rest) :=
+  readVarintAux_encodeAux n n (Nat.le_refl _) shift acc rest
+
+theorem decodeVarintAux_encodeAux : ∀ (fuel n : Nat), n ≤ fuel → ∀ (shift acc : Nat) (rest : Bytes),
+    decodeVarintAux shift acc (encodeVarintAux fuel n ++ rest) = (acc + n * 2 ^ shift, rest) := by
+  intro fuel
+  induction fuel with
+  | zero =>
+    intro n hn shift acc rest
+    have : n = 0 := by omega
+    subst this
+    have h1 : (UInt8.ofNat (0 % 128)).toNat = 0 := by decide
+    rw [encodeVarintAux_zero]
+    simp [decodeVarintAux, h1, varintDecMask, varintDecCont]
+  | succ fuel ih =>
+    intro n hn shift acc rest
+    rw [encodeVarintAux_succ]
+    by_cases h : n < 128
+    · have h0 : n / 128 = 0 := by omega
       have h1 : (UInt8.ofNat n).toNat = n := u8 (by omega)
       have h2 : n / 128 % 2 = 0 := by omega
-      simp [decodeVarintAux, varintDecMask, varintDecCont, h1, h2, Nat.mod_eq_of_lt h]
-    · rename_i h
-      have h1 : (UInt8.ofNat (n % 128 + 128)).toNat = n % 128 + 128 := u8 (by omega)
+      rw [if_pos h0, Nat.mod_eq_of_lt h]
+      simp only [List.cons_append, List.nil_append, decodeVarintAux, varintDecMask, varintDecCont, h1, h2,
+        if_true, Nat.mod_eq_of_lt h]
+    · have h0 : ¬ (n / 128 = 0) := by omega
+      have h1 : (UInt8.ofNat (n % 128 + 128)).toNat = n % 128 + 128 := by rw [u8 (by omega)]
       have h2 : ¬ ((n % 128 + 128) / 128 % 2 = 0) := by omega
       have h3 : (n % 128 + 128) % 128 = n % 128 := by omega
-      simp only [List.cons_append, decodeVarintAux, varintDecMask, varintDecCont,
-        varintDecShift, h1, h2, h3, if_false]
+      rw [if_neg h0]
+      simp only [if_false, List.cons_append, decodeVarintAux, varintDecMask, varintDecCont,
+        varintDecShift, h1, h2, h3]
       rw [ih (n / 128) (by omega)]
       have : n % 128 * 2 ^ shift + n / 128 * 2 ^ (shift + 7) = n * 2 ^ shift := by
-        have hn : n = 128 * (n / 128) + n % 128 := (Nat.div_add_mod n 128).symm
+        have hn' : n = 128 * (n / 128) + n % 128 := (Nat.div_add_mod n 128).symm
         generalize n / 128 = q at *
         generalize n % 128 = r at *
-        subst hn
+        subst hn'
         ring
       rw [Nat.add_assoc, this]
+
+theorem decodeVarintAux_encode (n : Nat) (shift acc : Nat) (rest : Bytes) :
+    decodeVarintAux shift acc (encodeVarint n ++ rest) = (acc + n * 2 ^ shift, rest) :=
+  decodeVarintAux_encodeAux n n (Nat.le_refl _) shift acc rest
 
 /-! ### path compression -/
 
@@ -464,5 +498,506 @@ theorem readCacheEntry_entryBytes {v : Nat} {e : Entry} (prev rest : Bytes) (h :
       rw [hlen]
       rw [List.drop_append_of_le_length (by simp), List.drop_of_length_le (by simp)]
       simp [normEntry, hext0 hext]
+
+/-! ### padding -/
+
+theorem and_7 (x : Nat) : x &&& 7 = x % 8 := by
+  have := Nat.and_two_pow_sub_one_eq_mod x 3
+  simpa using this
+
+theorem padLenWrite_eq (n : Nat) : padLenWrite n = 8 - n % 8 := by
+  simp only [padLenWrite, padLenWith, padAddWrite, padMaskWrite, clearBits, and_7]; omega
+
+/-! ### normal form of the flags -/
+
+theorem normFlags_eq {e : Entry} (hl : e.name.length < 4096) :
+    (normEntry e).flags = 4096 * hiNibble e.flags e.ext := by
+  simp only [normEntry, flagNameMask]
+  rw [diskFlags_eq e hl, word_clear _ _ hl]
+
+/-- An entry that is already in the form the reader produces. -/
+def Canonical (e : Entry) : Prop :=
+  (∃ s n, e.ctime = .pair s n) ∧ (∃ s n, e.mtime = .pair s n) ∧ e.dev < 4294967296 ∧ e.ino < 4294967296 ∧
+  e.flags % 4096 = 0 ∧ (e.ext ≠ 0 → e.flags &&& flagExtended ≠ 0)
+
+theorem normEntry_of_canonical {e : Entry} (hl : e.name.length < 4096) (hf : e.flags < 65536)
+    (h : Canonical e) : normEntry e = e := by
+  obtain ⟨⟨s1, n1, h1⟩, ⟨s2, n2, h2⟩, hd, hi, hlow, hx⟩ := h
+  have hflags : (normEntry e).flags = e.flags := by
+    rw [normFlags_eq hl]
+    unfold hiNibble
+    by_cases hext : e.ext ≠ 0
+    · have hb := hx hext
+      simp only [flagExtended] at hb
+      have hfx : e.flags &&& 16384 = 4096 * (e.flags / 4096 &&& 4) := by
+        have := word_and_ext (e.flags / 4096) (e.flags % 4096) (by omega)
+        rwa [Nat.div_add_mod] at this
+      rw [hfx] at hb
+      have ha : e.flags / 4096 < 16 := by omega
+      have key : ∀ a, a < 16 → 4096 * (a &&& 4) ≠ 0 → (a ||| 4) = a := by decide
+      rw [if_pos hext, key _ ha hb]; omega
+    · rw [if_neg hext]; simp; omega
+  cases e with
+  | mk name ctime mtime dev ino mode uid gid size sha flags ext =>
+    simp only [normEntry] at hflags ⊢
+    simp only at h1 h2 hd hi
+    subst h1 h2
+    simp only [normTime, Nat.mod_eq_of_lt hd, Nat.mod_eq_of_lt hi]
+    congr
+
+/-! ### the entry loop -/
+
+/-- The bytes of the entry loop of `write_index` (well-formed entries). -/
+def entriesBytes (v : Nat) : Bytes → List Entry → Bytes
+  | _, [] => []
+  | prev, e :: es => entryBytes v prev e ++ entriesBytes v e.name es
+
+theorem writeEntries_ok {v : Nat} : ∀ (es : List Entry) (prev : Bytes), (∀ e ∈ es, WFEntry v e) →
+    writeEntries v prev es = .ok (entriesBytes v prev es)
+  | [], _, _ => rfl
+  | e :: es, prev, h => by
+    have he : WFEntry v e := h e (by simp)
+    have hes : ∀ x ∈ es, WFEntry v x := fun x hx => h x (by simp [hx])
+    simp [writeEntries, writeCacheEntry_ok prev he, writeEntries_ok es e.name hes, entriesBytes]
+
+/-- The dictionary-building loop on a list of entries. -/
+def foldAdd : Dict → List Entry → R Dict
+  | acc, [] => .ok acc
+  | acc, e :: es =>
+    match addEntry acc e with
+    | .error x => .error x
+    | .ok acc' => foldAdd acc' es
+
+theorem readEntries_entriesBytes {v : Nat} : ∀ (es : List Entry) (prev : Bytes) (acc : Dict) (rest : Bytes),
+    (∀ e ∈ es, WFEntry v e) →
+    readEntries v es.length prev acc (entriesBytes v prev es ++ rest) =
+      (match foldAdd acc (es.map normEntry) with
+       | .ok d => .ok (d, rest)
+       | .error x => .error x)
+  | [], _, _, _, _ => by simp [readEntries, entriesBytes, foldAdd]
+  | e :: es, prev, acc, rest, h => by
+    have he : WFEntry v e := h e (by simp)
+    have hes : ∀ x ∈ es, WFEntry v x := fun x hx => h x (by simp [hx])
+    simp only [List.length_cons, readEntries, entriesBytes, List.append_assoc,
+      readCacheEntry_entryBytes prev _ he, List.map_cons, foldAdd]
+    cases hadd : addEntry acc (normEntry e) with
+    | error x => simp
+    | ok acc' =>
+      simp only
+      have hn : (normEntry e).name = e.name := rfl
+      rw [hn, readEntries_entriesBytes es e.name acc' rest hes]
+
+/-! ### extensions -/
+
+def WFExt (x : Ext) : Prop := x.1.length = 4 ∧ x.1.all isSigByte = true ∧ x.2.length < 4294967296
+
+instance (x : Ext) : Decidable (WFExt x) := by unfold WFExt; infer_instance
+
+def extsBytes : List Ext → Bytes
+  | [] => []
+  | x :: xs => x.1 ++ be32 x.2.length ++ x.2 ++ extsBytes xs
+
+theorem writeExts_ok : ∀ (xs : List Ext), (∀ x ∈ xs, WFExt x) → writeExts xs = .ok (extsBytes xs)
+  | [], _ => rfl
+  | x :: xs, h => by
+    have hx : WFExt x := h x (by simp)
+    have hxs : ∀ y ∈ xs, WFExt y := fun y hy => h y (by simp [hy])
+    simp [writeExts, writeExt, packL_ok hx.2.2, writeExts_ok xs hxs, extsBytes]
+
+theorem readExts_extsBytes : ∀ (xs : List Ext) (fuel : Nat) (trailer : Bytes),
+    (∀ x ∈ xs, WFExt x) → trailer.length = 20 → (extsBytes xs ++ trailer).length ≤ fuel →
+    readExts fuel (extsBytes xs ++ trailer) = (xs.map fun x => fromRaw x.1 x.2, trailer, [])
+  | [], fuel, trailer, _, ht, _ => by
+    cases fuel with
+    | zero => simp [readExts, extsBytes]
+    | succ f => simp [readExts, extsBytes, trailerLen, ht]
+  | x :: xs, fuel, trailer, h, ht, hfuel => by
+    have hx : WFExt x := h x (by simp)
+    have hxs : ∀ y ∈ xs, WFExt y := fun y hy => h y (by simp [hy])
+    obtain ⟨h4, hsig, hlen⟩ := hx
+    cases fuel with
+    | zero => simp [extsBytes, h4] at hfuel
+    | succ f =>
+      have hbig : ¬ ((extsBytes (x :: xs) ++ trailer).length ≤ trailerLen) := by
+        simp [extsBytes, h4, be32_length, trailerLen, ht]; omega
+      have htake : (extsBytes (x :: xs) ++ trailer).take 4 = x.1 := by
+        simp only [extsBytes, List.append_assoc]
+        rw [List.take_append_of_le_length (by omega)]; exact List.take_of_length_le (by omega)
+      have hdrop : (extsBytes (x :: xs) ++ trailer).drop 4 = be32 x.2.length ++ (x.2 ++ (extsBytes xs ++ trailer)) := by
+        simp only [extsBytes, List.append_assoc]
+        rw [List.drop_append_of_le_length (by omega), List.drop_of_length_le (by omega)]; simp
+      have hf' : (extsBytes xs ++ trailer).length ≤ f := by
+        simp [extsBytes, h4, be32_length] at hfuel ⊢; omega
+      rw [readExts, if_neg hbig]
+      simp only [htake, hdrop, h4, hsig, readL_be32 hlen]
+      have ht2 : (x.2 ++ (extsBytes xs ++ trailer)).take x.2.length = x.2 := by
+        rw [List.take_append_of_le_length (Nat.le_refl _)]; exact List.take_of_length_le (Nat.le_refl _)
+      have hd2 : (x.2 ++ (extsBytes xs ++ trailer)).drop x.2.length = extsBytes xs ++ trailer := by
+        rw [List.drop_append_of_le_length (Nat.le_refl _)]; simp
+      simp [ht2, hd2, readExts_extsBytes xs f trailer hxs ht hf']
+
+/-! ### whole file -/
+
+/-- Everything before the trailer, for well-formed input. -/
+def fileBody (v : Nat) (es : List Entry) (xs : List Ext) : Bytes :=
+  magic ++ be32 v ++ be32 es.length ++ entriesBytes v [] es ++ extsBytes xs
+
+theorem writeIndex_ok {ver : Option Nat} {es : List Entry} {xs : List Ext}
+    (hv : effectiveVersion ver es < 4294967296) (hn : es.length < 4294967296)
+    (hes : ∀ e ∈ es, WFEntry (effectiveVersion ver es) e) (hxs : ∀ x ∈ xs, WFExt x) :
+    writeIndex ver es xs = .ok (fileBody (effectiveVersion ver es) es xs) := by
+  unfold writeIndex fileBody
+  simp [packL_ok hv, packL_ok hn, writeEntries_ok es [] hes, writeExts_ok xs hxs]
+
+theorem readHeader_ok {v n : Nat} (hv : versions.contains v = true) (hv32 : v < 4294967296)
+    (hn : n < 4294967296) (rest : Bytes) :
+    readHeader (magic ++ (be32 v ++ (be32 n ++ rest))) = .ok (v, n, rest) := by
+  unfold readHeader
+  have h1 : (magic ++ (be32 v ++ (be32 n ++ rest))).take 4 = magic := by
+    rw [List.take_append_of_le_length (by decide)]; rfl
+  have h2 : (magic ++ (be32 v ++ (be32 n ++ rest))).drop 4 = be32 v ++ (be32 n ++ rest) := by
+    rw [List.drop_append_of_le_length (by decide)]; rfl
+  rw [h1, h2, readL_be32 hv32]
+  simp only [ne_eq, not_true_eq_false, if_false]
+  rw [readL_be32 hn]
+  simp only [hv, if_true]
+
+theorem take_body (body trailer : Bytes) :
+    (body ++ trailer).take ((body ++ trailer).length - trailer.length) = body := by
+  have : (body ++ trailer).length - trailer.length = body.length := by
+    rw [List.length_append]; omega
+  rw [this, List.take_append_of_le_length (Nat.le_refl _)]
+  exact List.take_of_length_le (Nat.le_refl _)
+
+theorem readIndexDict_of_parts (file : Bytes) {v n : Nat} {d0 d1 : Bytes} {dict : Dict}
+    (h1 : readHeader file = .ok (v, n, d0)) (h2 : readEntries v n [] [] d0 = .ok (dict, d1)) :
+    readIndexDict file = .ok (dict, v, (readExts d1.length d1).1, (readExts d1.length d1).2.1,
+      file.take (file.length - (readExts d1.length d1).2.1.length) ++ (readExts d1.length d1).2.2) := by
+  unfold readIndexDict
+  rw [h1]; simp only
+  rw [h2]
+
+theorem readIndexDict_of_entries_error (file : Bytes) {v n : Nat} {d0 : Bytes} {x : IErr}
+    (h1 : readHeader file = .ok (v, n, d0)) (h2 : readEntries v n [] [] d0 = .error x) :
+    readIndexDict file = .error x := by
+  unfold readIndexDict
+  rw [h1]; simp only
+  rw [h2]
+
+theorem readIndexDict_file {v : Nat} {es : List Entry} {xs : List Ext} {trailer : Bytes}
+    (hv : versions.contains v = true) (hv32 : v < 4294967296) (hn : es.length < 4294967296)
+    (hes : ∀ e ∈ es, WFEntry v e) (hxs : ∀ x ∈ xs, WFExt x) (ht : trailer.length = 20) :
+    readIndexDict (fileBody v es xs ++ trailer) =
+      (match foldAdd [] (es.map normEntry) with
+       | .ok d => .ok (d, v, xs.map (fun x => fromRaw x.1 x.2), trailer, fileBody v es xs)
+       | .error x => .error x) := by
+  have hfile : fileBody v es xs ++ trailer =
+      magic ++ (be32 v ++ (be32 es.length ++ (entriesBytes v [] es ++ (extsBytes xs ++ trailer)))) := by
+    simp only [fileBody, List.append_assoc]
+  have h1 : readHeader (fileBody v es xs ++ trailer) =
+      .ok (v, es.length, entriesBytes v [] es ++ (extsBytes xs ++ trailer)) := by
+    rw [hfile, readHeader_ok hv hv32 hn]
+  have h2 := readEntries_entriesBytes es [] [] (extsBytes xs ++ trailer) hes
+  cases hfold : foldAdd [] (es.map normEntry) with
+  | error x =>
+    rw [hfold] at h2
+    exact readIndexDict_of_entries_error _ h1 h2
+  | ok d =>
+    rw [hfold] at h2
+    rw [readIndexDict_of_parts _ h1 h2, readExts_extsBytes xs _ trailer hxs ht (Nat.le_refl _)]
+    simp only [List.append_nil, take_body]
+
+theorem checkSha_hash (H : Bytes → Bytes) (hH : ∀ x, (H x).length = 20) (b : Bool) (body : Bytes) :
+    checkSha H b body (H body) = true := by
+  have : (H body).take shaReadLen = H body := List.take_of_length_le (by simp [hH, shaReadLen])
+  simp [checkSha, this]
+
+theorem checkSha_zeros (H : Bytes → Bytes) (body : Bytes) :
+    checkSha H true body (List.replicate skipHashZeros 0) = true := by
+  have : (List.replicate skipHashZeros (0:UInt8)).take shaReadLen = zeros20 := rfl
+  simp [checkSha, this]
+
+/-! ### order -/
+
+theorem u8_lt_iff (a b : UInt8) : a < b ↔ a.toNat < b.toNat := UInt8.lt_iff_toNat_lt
+
+theorem bytesLt_asymm : ∀ (a b : Bytes), bytesLt a b = true → bytesLt b a = false
+  | [], [], h => by simp [bytesLt] at h
+  | [], _ :: _, _ => by simp [bytesLt]
+  | _ :: _, [], h => by simp [bytesLt] at h
+  | x :: as, y :: bs, h => by
+    simp only [bytesLt] at h ⊢
+    by_cases h1 : x < y
+    · have h2 : ¬ y < x := by rw [u8_lt_iff] at *; omega
+      simp [h2, h1]
+    · by_cases h2 : y < x
+      · simp [h1, h2] at h
+      · simp only [h1, h2, if_false] at h ⊢
+        exact bytesLt_asymm as bs h
+
+theorem bytesLt_trans : ∀ (a b c : Bytes), bytesLt a b = true → bytesLt b c = true → bytesLt a c = true
+  | [], [], _, h, _ => by simp [bytesLt] at h
+  | [], _ :: _, [], _, h => by simp [bytesLt] at h
+  | [], _ :: _, _ :: _, _, _ => by simp [bytesLt]
+  | _ :: _, [], _, h, _ => by simp [bytesLt] at h
+  | _ :: _, _ :: _, [], _, h => by simp [bytesLt] at h
+  | x :: as, y :: bs, z :: cs, h1, h2 => by
+    simp only [bytesLt] at h1 h2 ⊢
+    by_cases xy : x < y
+    · by_cases yz : y < z
+      · have : x < z := by rw [u8_lt_iff] at *; omega
+        simp [this]
+      · by_cases zy : z < y
+        · simp [yz, zy] at h2
+        · have : x < z := by rw [u8_lt_iff] at *; omega
+          simp [this]
+    · by_cases yx : y < x
+      · simp [xy, yx] at h1
+      · simp only [xy, yx, if_false] at h1
+        by_cases yz : y < z
+        · have : x < z := by rw [u8_lt_iff] at *; omega
+          simp [this]
+        · by_cases zy : z < y
+          · simp [yz, zy] at h2
+          · simp only [yz, zy, if_false] at h2
+            have e1 : ¬ x < z := by rw [u8_lt_iff] at *; omega
+            have e2 : ¬ z < x := by rw [u8_lt_iff] at *; omega
+            simp only [e1, e2, if_false]
+            exact bytesLt_trans as bs cs h1 h2
+
+theorem bytesLt_trichotomy : ∀ (a b : Bytes), a = b ∨ bytesLt a b = true ∨ bytesLt b a = true
+  | [], [] => Or.inl rfl
+  | [], _ :: _ => by simp [bytesLt]
+  | _ :: _, [] => by simp [bytesLt]
+  | x :: as, y :: bs => by
+    simp only [bytesLt]
+    by_cases xy : x < y
+    · simp [xy]
+    · by_cases yx : y < x
+      · simp [yx]
+      · have : x = y := by
+          apply UInt8.toNat_inj.mp
+          rw [u8_lt_iff] at *; omega
+        subst this
+        simp only [xy, if_false]
+        rcases bytesLt_trichotomy as bs with h | h | h
+        · exact Or.inl (by rw [h])
+        · exact Or.inr (Or.inl h)
+        · exact Or.inr (Or.inr h)
+
+theorem bytesLt_prefix : ∀ (a : Bytes) (y : UInt8) (t : Bytes), bytesLt a (a ++ y :: t) = true
+  | [], _, _ => by simp [bytesLt]
+  | x :: as, y, t => by
+    have : ¬ x < x := by rw [u8_lt_iff]; omega
+    simp [bytesLt, this, bytesLt_prefix as y t]
+
+theorem bytesLt_diverge : ∀ (p : Bytes) (x y : UInt8) (s t : Bytes), x < y →
+    bytesLt (p ++ x :: s) (p ++ y :: t) = true
+  | [], _, _, _, _, h => by simp [bytesLt, h]
+  | c :: p, x, y, s, t, h => by
+    have : ¬ c < c := by rw [u8_lt_iff]; omega
+    simp [bytesLt, this, bytesLt_diverge p x y s t h]
+
+theorem insertSorted_perm (x : Bytes × Val) : ∀ (ys : Dict), (insertSorted x ys).Perm (x :: ys)
+  | [] => by simp [insertSorted]
+  | y :: ys => by
+    simp only [insertSorted]
+    split
+    · exact List.Perm.refl _
+    · exact ((insertSorted_perm x ys).cons y).trans (List.Perm.swap x y ys)
+
+theorem sortDict_perm (d : Dict) : (sortDict d).Perm d := by
+  unfold sortDict
+  induction d with
+  | nil => simp
+  | cons x xs ih =>
+    simp only [List.foldr_cons]
+    exact (insertSorted_perm x _).trans (ih.cons x)
+
+theorem insertSorted_sorted (x : Bytes × Val) : ∀ (ys : Dict),
+    ys.Pairwise (fun a b => bytesLt b.1 a.1 = false) →
+    (insertSorted x ys).Pairwise (fun a b => bytesLt b.1 a.1 = false)
+  | [], _ => by simp [insertSorted]
+  | y :: ys, h => by
+    simp only [insertSorted]
+    rw [List.pairwise_cons] at h
+    split
+    · rename_i hlt
+      refine List.Pairwise.cons ?_ (List.Pairwise.cons h.1 h.2)
+      intro z hz
+      rcases List.mem_cons.mp hz with rfl | hz
+      · exact bytesLt_asymm _ _ hlt
+      · have hyz := h.1 z hz
+        cases hzx : bytesLt z.1 x.1 with
+        | false => rfl
+        | true => rw [bytesLt_trans _ _ _ hzx hlt] at hyz; cases hyz
+    · rename_i hnlt
+      refine List.Pairwise.cons ?_ (insertSorted_sorted x ys h.2)
+      intro z hz
+      rcases List.mem_cons.mp ((insertSorted_perm x ys).subset hz) with rfl | hz
+      · simpa using hnlt
+      · exact h.1 z hz
+
+theorem sortDict_sorted (d : Dict) : (sortDict d).Pairwise (fun a b => bytesLt b.1 a.1 = false) := by
+  unfold sortDict
+  induction d with
+  | nil => simp
+  | cons x xs ih => simp only [List.foldr_cons]; exact insertSorted_sorted x _ ih
+
+/-! ### stages -/
+
+theorem or_shift12 (x st : Nat) : x ||| (st <<< 12) = 4096 * (x / 4096 ||| st) + x % 4096 := by
+  rw [or12, Nat.shiftLeft_eq]
+  have a1 : st * 2 ^ 12 / 4096 = st := by omega
+  have a2 : st * 2 ^ 12 % 4096 = 0 := by omega
+  rw [a1, a2]; simp
+
+theorem serialize_stage (e : Entry) (k : Bytes) (st : Nat) (hf : e.flags < 65536) (hst : st ≤ 3) :
+    entryStage (serialize e k st) = st := by
+  simp only [entryStage, serialize, flagStageMask, flagStageShift, clearBits]
+  have hfx : e.flags &&& 12288 = 4096 * (e.flags / 4096 &&& 3) := by
+    rw [and12]; simp
+  rw [hfx, or_shift12, and12, Nat.shiftRight_eq_div_pow]
+  have ha : e.flags / 4096 < 16 := by omega
+  have hle : e.flags / 4096 &&& 3 ≤ e.flags / 4096 := Nat.and_le_left
+  have a1 : (e.flags - 4096 * (e.flags / 4096 &&& 3)) / 4096 = e.flags / 4096 - (e.flags / 4096 &&& 3) := by omega
+  have a2 : (e.flags - 4096 * (e.flags / 4096 &&& 3)) % 4096 = e.flags % 4096 := by omega
+  rw [a1, a2]
+  have b1 : (4096 * (e.flags / 4096 - (e.flags / 4096 &&& 3) ||| st) + e.flags % 4096) / 4096
+      = (e.flags / 4096 - (e.flags / 4096 &&& 3) ||| st) := by omega
+  rw [b1]
+  have key : ∀ a, a < 16 → ∀ s, s ≤ 3 → ((a - (a &&& 3) ||| s) &&& 3) = s := by decide
+  have := key _ ha _ hst
+  simp only [show (12288 : Nat) / 4096 = 3 by decide, show (12288 : Nat) % 4096 = 0 by decide, this,
+    Nat.and_zero, Nat.add_zero]
+  omega
+
+theorem serialize_name (e : Entry) (k : Bytes) (st : Nat) : (serialize e k st).name = k := rfl
+
+theorem stageAt_vals : stageAt 0 = 1 ∧ stageAt 1 = 2 ∧ stageAt 2 = 3 ∧ stageAt 3 = 0 := by decide
+
+theorem flattenVal_normal_stage (k : Bytes) (e : Entry) (hf : e.flags < 65536) :
+    (flattenVal k (.normal e)).map (fun x => (x.name, entryStage x)) = [(k, 0)] := by
+  simp [flattenVal, stageAt_vals.2.2.2, serialize_stage e k 0 hf (by omega), serialize_name]
+
+theorem flattenVal_conflict_stages (k : Bytes) (a t o : Option Entry)
+    (ha : ∀ e, a = some e → e.flags < 65536) (ht : ∀ e, t = some e → e.flags < 65536)
+    (ho : ∀ e, o = some e → e.flags < 65536) :
+    (flattenVal k (.conflict a t o)).map (fun x => (x.name, entryStage x)) =
+      (a.map fun _ => (k, 1)).toList ++ (t.map fun _ => (k, 2)).toList ++ (o.map fun _ => (k, 3)).toList := by
+  simp only [flattenVal, stageAt_vals.1, stageAt_vals.2.1, stageAt_vals.2.2.1, List.map_append]
+  congr 1
+  · congr 1
+    · cases a with
+      | none => rfl
+      | some e => simp [serialize_stage e k 1 (ha e rfl) (by omega), serialize_name]
+    · cases t with
+      | none => rfl
+      | some e => simp [serialize_stage e k 2 (ht e rfl) (by omega), serialize_name]
+  · cases o with
+    | none => rfl
+    | some e => simp [serialize_stage e k 3 (ho e rfl) (by omega), serialize_name]
+
+/-! ### the lower-case extension defect -/
+
+theorem lowercase_ext_rejected (H : Bytes → Bytes)
+    (hH : H ([68, 73, 82, 67, 0, 0, 0, 2, 0, 0, 0, 0] ++ [115, 100, 105, 114])
+          ≠ [115, 100, 105, 114, 0, 0, 0, 0] ++ (H ([68, 73, 82, 67, 0, 0, 0, 2, 0, 0, 0, 0] ++ [115, 100, 105, 114, 0, 0, 0, 0])).take 12)
+    (h20 : ∀ x, (H x).length = 20) :
+    indexRead H ([68, 73, 82, 67, 0, 0, 0, 2, 0, 0, 0, 0] ++ [115, 100, 105, 114, 0, 0, 0, 0] ++
+      H ([68, 73, 82, 67, 0, 0, 0, 2, 0, 0, 0, 0] ++ [115, 100, 105, 114, 0, 0, 0, 0])) = .error .checksum := by
+  generalize hT : H ([68, 73, 82, 67, 0, 0, 0, 2, 0, 0, 0, 0] ++ [115, 100, 105, 114, 0, 0, 0, 0]) = T at hH ⊢
+  have hTl : T.length = 20 := by rw [← hT]; exact h20 _
+  have h1 : readHeader ([68, 73, 82, 67, 0, 0, 0, 2, 0, 0, 0, 0] ++ [115, 100, 105, 114, 0, 0, 0, 0] ++ T)
+      = .ok (2, 0, [115, 100, 105, 114, 0, 0, 0, 0] ++ T) := by
+    simp [readHeader, magic, readL, versions]
+  have h2 : readEntries 2 0 [] [] ([115, 100, 105, 114, 0, 0, 0, 0] ++ T) = .ok ([], [115, 100, 105, 114, 0, 0, 0, 0] ++ T) := rfl
+  have h3 : readExts ([115, 100, 105, 114, 0, 0, 0, 0] ++ T).length ([115, 100, 105, 114, 0, 0, 0, 0] ++ T)
+      = ([], [115, 100, 105, 114, 0, 0, 0, 0] ++ T, [115, 100, 105, 114]) := by
+    have hl : ([115, 100, 105, 114, 0, 0, 0, 0] ++ T).length = 27 + 1 := by simp [hTl]
+    rw [hl, readExts]
+    have hbig : ¬ (([115, 100, 105, 114, 0, 0, 0, 0] ++ T).length ≤ trailerLen) := by simp [hTl, trailerLen]
+    rw [if_neg hbig]
+    have hs : ([115, 100, 105, 114, 0, 0, 0, 0] ++ T).take 4 = [115, 100, 105, 114] := by simp
+    simp only [hs]
+    have hsig : (![115, 100, 105, 114].all isSigByte) = true := by decide
+    have hl4 : ¬ (([115, 100, 105, 114] : Bytes).length < 4) := by decide
+    rw [if_neg hl4, if_pos hsig]
+  unfold indexRead
+  rw [readIndexDict_of_parts _ h1 h2, h3]
+  simp only
+  have htake : ([68, 73, 82, 67, 0, 0, 0, 2, 0, 0, 0, 0] ++ [115, 100, 105, 114, 0, 0, 0, 0] ++ T).take
+      (([68, 73, 82, 67, 0, 0, 0, 2, 0, 0, 0, 0] ++ [115, 100, 105, 114, 0, 0, 0, 0] ++ T).length -
+        ([115, 100, 105, 114, 0, 0, 0, 0] ++ T).length) = [68, 73, 82, 67, 0, 0, 0, 2, 0, 0, 0, 0] := by
+    rw [List.append_assoc]; exact take_body _ _
+  rw [htake]
+  have hstored : ([115, 100, 105, 114, 0, 0, 0, 0] ++ T).take shaReadLen = [115, 100, 105, 114, 0, 0, 0, 0] ++ T.take 12 := by
+    simp [shaReadLen]
+  have hne : ([115, 100, 105, 114, 0, 0, 0, 0] ++ T.take 12 : Bytes) ≠ zeros20 := by
+    simp [zeros20, List.replicate]
+  have hlen : ([115, 100, 105, 114, 0, 0, 0, 0] ++ T.take 12 : Bytes).length = 20 := by
+    simp [hTl]
+  have hc : checkSha H allowEmpty ([68, 73, 82, 67, 0, 0, 0, 2, 0, 0, 0, 0] ++ [115, 100, 105, 114])
+      ([115, 100, 105, 114, 0, 0, 0, 0] ++ T) = false := by
+    unfold checkSha
+    simp only [hstored, hlen, allowEmpty]
+    have h1 : (([115, 100, 105, 114, 0, 0, 0, 0] ++ T.take 12 : Bytes) ≠
+        H ([68, 73, 82, 67, 0, 0, 0, 2, 0, 0, 0, 0] ++ [115, 100, 105, 114])) := Ne.symm hH
+    simp only [ne_eq, h1, not_false_eq_true, decide_true, hne, Bool.not_true, Bool.false_or, Bool.and_self,
+      Bool.not_true]
+  rw [hc]
+  rfl
+
+/-! ### Index.write then Index.read -/
+
+theorem versions_lt {v : Nat} (h : versions.contains v = true) : v < 4294967296 := by
+  have h2 : v ∈ versions := List.elem_iff.mp h
+  unfold versions at h2
+  rcases List.mem_cons.mp h2 with rfl | h2
+  · decide
+  rcases List.mem_cons.mp h2 with rfl | h2
+  · decide
+  rcases List.mem_cons.mp h2 with rfl | h2
+  · decide
+  rcases List.mem_cons.mp h2 with rfl | h2
+  · decide
+  cases h2
+
+theorem indexRead_of_parts (H : Bytes → Bytes) {file : Bytes} {dict : Dict} {v : Nat} {exts : List Ext}
+    {rest hashed : Bytes} (h : readIndexDict file = .ok (dict, v, exts, rest, hashed))
+    (hc : checkSha H allowEmpty hashed rest = true) : indexRead H file = .ok (dict, v, exts) := by
+  unfold indexRead; rw [h]; simp only [hc, if_true]
+
+theorem indexRead_of_error (H : Bytes → Bytes) {file : Bytes} {x : IErr}
+    (h : readIndexDict file = .error x) : indexRead H file = .error x := by
+  unfold indexRead; rw [h]
+
+theorem indexRead_body_trailer (H : Bytes → Bytes) {v : Nat} {es : List Entry} {xs : List Ext} {trailer : Bytes}
+    (hv : versions.contains v = true) (hn : es.length < 4294967296)
+    (hes : ∀ e ∈ es, WFEntry v e) (hxs : ∀ x ∈ xs, WFExt x) (ht : trailer.length = 20)
+    (hc : checkSha H allowEmpty (fileBody v es xs) trailer = true) :
+    indexRead H (fileBody v es xs ++ trailer) =
+      (match foldAdd [] (es.map normEntry) with
+       | .ok dict => .ok (dict, v, xs.map fun x => fromRaw x.1 x.2)
+       | .error x => .error x) := by
+  have h := readIndexDict_file hv (versions_lt hv) hn hes hxs ht
+  cases hf : foldAdd [] (es.map normEntry) with
+  | error x => rw [hf] at h; exact indexRead_of_error H h
+  | ok dict => rw [hf] at h; exact indexRead_of_parts H h hc
+
+theorem indexWrite_ok (H : Bytes → Bytes) (skipHash : Bool) {ver : Option Nat} {d : Dict} {xs : List Ext}
+    (hv : versions.contains (effectiveVersion ver (flattenDict d)) = true)
+    (hn : (flattenDict d).length < 4294967296)
+    (hes : ∀ e ∈ flattenDict d, WFEntry (effectiveVersion ver (flattenDict d)) e)
+    (hxs : ∀ x ∈ xs, WFExt x) :
+    indexWrite H skipHash ver d xs =
+      .ok (fileBody (effectiveVersion ver (flattenDict d)) (flattenDict d) (xs.filter fun x => !x.2.isEmpty) ++
+        (if skipHash then List.replicate skipHashZeros 0
+         else H (fileBody (effectiveVersion ver (flattenDict d)) (flattenDict d) (xs.filter fun x => !x.2.isEmpty)))) := by
+  have hxs' : ∀ x ∈ xs.filter (fun x => !x.2.isEmpty), WFExt x := fun x hx => hxs x (List.mem_filter.mp hx).1
+  have hw := writeIndex_ok (ver := ver) (es := flattenDict d) (versions_lt hv) hn hes hxs'
+  unfold indexWrite writeIndexDict
+  rw [hw]
+  rfl
 
 end Dulwich.Index
